@@ -219,7 +219,7 @@ def run_case(case, stats: Counter):
     stats[f"mode_{case['mode']}"] += 1
     stats["distinct_schedules"] += len(traces)
     return {"violations": list(viols_out.values()), "evals": max(1, evals), "distinct": len(traces),
-            "sample": {k: v for k, v in case.items()}}
+            "sample": dict(case, example_schedule=[list(map(str, t)) for t in list(traces)[:1]])}
 
 
 def finish(stats, tier):
